@@ -65,6 +65,8 @@ def swarm_config(rng, prop, tier, faults):
         "vmax": rng.choice((4, 6, 8)), "tmax": 10, "fmax": 8,
         "periodic_bias": rng.random() < (0.6 if prop == "C03" else 0.35),
         "ext_solver": rng.random() < (0.7 if prop == "C04" else 0.3),
+        # scheduling granularity: mean number of consecutive ops one task gets
+        "burst": rng.choice((1, 1, 2, 4, 8)),
     }
 
 
@@ -79,6 +81,7 @@ class Gen:
         self.queue = []          # setup ops
         self.task_seq = 0
         self.emitted = 0
+        self.current = None
         self._setup()
 
     # ------------------------------------------------------------- utilities
@@ -242,7 +245,12 @@ class Gen:
                 bcs = [self.w.ents[n].meta.get("bc") for n in victims if kind == "v"]
                 return {"k": "drop", "a": {"names": victims + [b for b in bcs if b]}}
         for _ in range(12):
-            t = rng.choice(self.tasks)
+            if self.current is not None and self.sw["burst"] > 1 \
+                    and rng.random() < 1.0 - 1.0 / self.sw["burst"]:
+                t = self.current
+            else:
+                t = rng.choice(self.tasks)
+            self.current = t
             op = t.next()
             if op is not None:
                 op["task"] = t.tid
